@@ -26,7 +26,8 @@
 EXTENDS Naturals, Sequences, FiniteSets, TLC
 
 CONSTANTS NC, NG, RecvTerm, FixDead, SafeClose, CloseTx, ErrBuf,
-          DialMayFail, WithClose, MayCancel, MayReset, MaySrvClose
+          DialMayFail, WithClose, MayCancel, MayReset, MaySrvClose,
+          DialedAtStart   \* BOOLEAN: the client was created by Dial - generation 1 exists before the first call
 
 Callers == 1..NC
 Gens == 1..NG
@@ -47,12 +48,12 @@ cvars == <<lock, cur, nextGen, clientClosed>>
 vars == <<pc, res, ret, tg, cvars, kvars, gvars, panicked>>
 
 Init ==
-  /\ pc = [p \in Procs |-> "none"] /\ res = [p \in Procs |-> "-"] /\ ret = [p \in Procs |-> <<"-", "-">>] /\ tg = [p \in Procs |-> 0]
-  /\ lock = 0 /\ cur = 0 /\ nextGen = 1 /\ clientClosed = FALSE
+  /\ pc = [p \in Procs |-> IF DialedAtStart /\ p \in {R(1), W(1)} THEN "new!" ELSE "none"] /\ res = [p \in Procs |-> "-"] /\ ret = [p \in Procs |-> <<"-", "-", "-">>] /\ tg = [p \in Procs |-> 0]
+  /\ lock = 0 /\ cur = (IF DialedAtStart THEN 1 ELSE 0) /\ nextGen = (IF DialedAtStart THEN 2 ELSE 1) /\ clientClosed = FALSE
   /\ retry = [k \in Callers |-> 3] /\ inLoop = [k \in Callers |-> FALSE] /\ cancelled = [k \in Callers |-> FALSE]
   /\ result = [k \in Callers |-> <<"none", 0>>] /\ tries = [k \in Callers |-> 0]
   /\ deadAtLock = [k \in Callers |-> FALSE] /\ dialed = [k \in Callers |-> FALSE] /\ startedAfterClose = [k \in Callers |-> FALSE]
-  /\ alive = [g \in Gens |-> FALSE] /\ closed = [g \in Gens |-> FALSE] /\ ctx = [g \in Gens |-> FALSE] /\ cause = [g \in Gens |-> "-"]
+  /\ alive = [g \in Gens |-> DialedAtStart /\ g = 1] /\ closed = [g \in Gens |-> FALSE] /\ ctx = [g \in Gens |-> FALSE] /\ cause = [g \in Gens |-> "-"]
   /\ tx = [g \in Gens |-> "chan"] /\ txClosed = [g \in Gens |-> FALSE] /\ mtx = [g \in Gens |-> "-"] /\ wtx = [g \in Gens |-> "-"]
   /\ cliSock = [g \in Gens |-> FALSE] /\ srvClosed = [g \in Gens |-> FALSE] /\ srvReset = [g \in Gens |-> FALSE]
   /\ c2s = [g \in Gens |-> <<>>] /\ pending = [g \in Gens |-> {}] /\ s2c = [g \in Gens |-> <<>>]
@@ -178,11 +179,13 @@ Exit(k, r) == /\ Go(K(k), "rt.exit") /\ result' = S1(result, k, r) /\ lock' = 0
 FailTo(k, cls) == IF retry[k] > 0 /\ Retryable(cls) THEN "rt.reconnect" ELSE "rt.exit"
 
 \* p enters terminate(cls) on generation c and continues with continuation r afterwards
-Term(p, c, cls, r) == /\ Go(p, "term.cancel") /\ ret' = S1(ret, p, <<r, cls>>) /\ tg' = S1(tg, p, c)
+Term(p, c, cls, r) == /\ Go(p, "term.cancel") /\ ret' = S1(ret, p, <<r, cls, cls>>) /\ tg' = S1(tg, p, c)
+\* ... same, but the error reported to the caller afterwards (rep) differs from the cause given to terminate
+TermRep(p, c, cls, r, rep) == /\ Go(p, "term.cancel") /\ ret' = S1(ret, p, <<r, cls, rep>>) /\ tg' = S1(tg, p, c)
 
 \* continuation after terminate / Close returned
 AfterTerm(p) ==
-  LET r == ret[p][1] cls == ret[p][2] IN
+  LET r == ret[p][1] cls == ret[p][3] IN
   CASE r = "rexit" -> /\ Go(p, "rl.exit") /\ UC(<<result, lock, cur, inLoop>>)
     [] r = "wexit" -> /\ Go(p, "wl.exit") /\ UC(<<result, lock, cur, inLoop>>)
     [] r = "xdone" -> /\ Go(p, "done") /\ UC(<<result, lock, cur, inLoop>>)
@@ -199,7 +202,7 @@ ArrTerm(p) ==
   /\ g \in {"cl.close!", "term.cancel!", "term.txswap!", "term.sockclose!"}
   /\ CASE g = "cl.close!" ->
             IF res[p] = "already" THEN AfterTerm(p) /\ UC(<<ret, tg>>)
-            ELSE /\ Go(p, "term.cancel") /\ ret' = S1(ret, p, <<ret[p][1], "closed">>) /\ UC(<<tg, result, lock, cur, inLoop>>)
+            ELSE /\ Go(p, "term.cancel") /\ ret' = S1(ret, p, <<ret[p][1], "closed", ret[p][3]>>) /\ UC(<<tg, result, lock, cur, inLoop>>)
        [] g = "term.cancel!" -> Go(p, "term.txswap") /\ UC(<<ret, tg, result, lock, cur, inLoop>>)
        [] g = "term.txswap!" -> Go(p, "term.sockclose") /\ UC(<<ret, tg, result, lock, cur, inLoop>>)
        [] g = "term.sockclose!" -> AfterTerm(p) /\ UC(<<ret, tg>>)
@@ -221,14 +224,14 @@ ArrK(k) ==
         ELSE Go(p, "send.avail") /\ tg' = S1(tg, p, cur) /\ UC(<<result, lock, inLoop>>)
      /\ UC(<<res, ret, cur, nextGen, clientClosed, retry, cancelled, tries, deadAtLock, dialed, startedAfterClose, gvars, panicked>>)
   \/ /\ g = "rt.reconnect!"          \* if c.conn != nil { c.conn.Close(); c.conn = nil }
-     /\ IF cur # 0 THEN Go(p, "cl.close") /\ tg' = S1(tg, p, cur) /\ ret' = S1(ret, p, <<"dial", "-">>)
+     /\ IF cur # 0 THEN Go(p, "cl.close") /\ tg' = S1(tg, p, cur) /\ ret' = S1(ret, p, <<"dial", "-", "-">>)
         ELSE Go(p, "rt.dial") /\ UC(<<tg, ret>>)
      /\ UC(<<res, cvars, kvars, gvars, panicked>>)
   \/ /\ g = "rt.dial!"
      /\ IF res[p] = "fail" THEN Exit(k, <<"err", "dial">>) /\ UC(<<retry, tg, ret>>)
         ELSE IF SafeClose /\ clientClosed
         THEN \* the client was closed while reconnecting: the new connection is closed again, the call fails
-             /\ Go(p, "cl.close") /\ ret' = S1(ret, p, <<"closedexit", "-">>) /\ UC(<<retry, tg, result, lock>>)
+             /\ Go(p, "cl.close") /\ ret' = S1(ret, p, <<"closedexit", "-", "-">>) /\ UC(<<retry, tg, result, lock>>)
         ELSE /\ Go(p, "send.avail") /\ retry' = S1(retry, k, IF inLoop[k] THEN retry[k] - 1 ELSE retry[k])
              /\ UC(<<tg, ret, result, lock>>)
      /\ UC(<<res, cur, nextGen, clientClosed, inLoop, cancelled, tries, deadAtLock, dialed, startedAfterClose, gvars, panicked>>)
@@ -255,8 +258,7 @@ ArrK(k) ==
   \/ /\ g = "recv.avail!"
      /\ IF res[p] = "avail" THEN Go(p, "recv.select") /\ UC(<<ret, tg, result, lock, inLoop>>)
         ELSE IF RecvTerm
-        THEN Term(p, c, "pipe", IF res[p] = "canceled" THEN "canceled" ELSE "fail") /\ ret' = S1(ret, p, <<IF res[p] = "canceled" THEN "canceled" ELSE "fail", IF res[p] = "canceled" THEN "pipe" ELSE res[p]>>)
-             /\ UC(<<result, lock, inLoop>>)
+        THEN TermRep(p, c, "pipe", IF res[p] = "canceled" THEN "canceled" ELSE "fail", res[p]) /\ UC(<<result, lock, inLoop>>)
         ELSE Outcome(k, res[p]) /\ UC(<<ret, tg>>)
      /\ UC(<<res, cur, nextGen, clientClosed, retry, cancelled, tries, deadAtLock, dialed, startedAfterClose, gvars, panicked>>)
   \/ /\ g = "recv.select!"            \* select { rx | c.ctx.Done | ctx.Done -> terminate }  (the rx rendezvous: RxHandoff)
@@ -299,7 +301,7 @@ ArrW(g) ==
 ArrX ==
   \/ /\ pc[X] = "new!" /\ Go(X, "cx.close") /\ Frame
   \/ /\ pc[X] = "cx.close!"
-     /\ IF tg[X] = 0 THEN Go(X, "done") /\ UC(ret) ELSE Go(X, "cl.close") /\ ret' = S1(ret, X, <<"xdone", "-">>)
+     /\ IF tg[X] = 0 THEN Go(X, "done") /\ UC(ret) ELSE Go(X, "cl.close") /\ ret' = S1(ret, X, <<"xdone", "-", "-">>)
      /\ UC(<<res, tg, cvars, kvars, gvars, panicked>>)
 
 Arrive(p) ==
@@ -336,7 +338,7 @@ ErrHandoff(g) ==
                /\ result' = S1(result, k, <<"err", cls>>) /\ lock' = 0 /\ UC(inLoop)
           ELSE /\ pc' = [pc EXCEPT ![K(k)] = "rt.reconnect", ![W(g)] = "term.cancel"]
                /\ inLoop' = S1(inLoop, k, TRUE) /\ UC(<<result, lock>>)
-       /\ ret' = S1(ret, W(g), <<"wexit", cls>>) /\ tg' = S1(tg, W(g), g)
+       /\ ret' = S1(ret, W(g), <<"wexit", cls, cls>>) /\ tg' = S1(tg, W(g), g)
     /\ UC(<<res, cur, nextGen, clientClosed, retry, cancelled, tries, deadAtLock, dialed, startedAfterClose, gvars, panicked>>)
 
 Handoff(g) == TxHandoff(g) \/ RxHandoff(g) \/ ErrHandoff(g)
